@@ -37,33 +37,26 @@ thread_local! {
     static WRITER_GUARD: std::cell::RefCell<Option<ExitGuard>> = const { std::cell::RefCell::new(None) };
 }
 
-static CLOCK_HELD: Mutex<bool> = Mutex::new(false);
-static CLOCK_RELEASED: Condvar = Condvar::new();
+static PARK_AT: Mutex<Option<u64>> = Mutex::new(None);
+static PARK_CHANGED: Condvar = Condvar::new();
 
-/// The simulated wall clock.  Blocks while the harness holds the clock
-/// (see [`hold_clock`]), which is how the harness lets events queue up behind the writer.
+/// The simulated wall clock.
 #[must_use]
 pub fn now() -> SystemTime {
-    let mut held = CLOCK_HELD
-        .lock()
-        .unwrap_or_else(std::sync::PoisonError::into_inner);
-    while *held {
-        held = CLOCK_RELEASED
-            .wait(held)
-            .unwrap_or_else(std::sync::PoisonError::into_inner);
-    }
-    drop(held);
     // Every reading advances the clock by a nanosecond: a real clock never stands still,
     // also not while a backlog of events is being worked off.
     SystemTime::UNIX_EPOCH + Duration::from_nanos(CLOCK_NS.fetch_add(1, Ordering::SeqCst))
 }
 
-/// While `held` is true, every thread that reads the simulated clock waits.
-pub fn hold_clock(held: bool) {
-    *CLOCK_HELD
+/// With `Some(n)`, a writer thread that has just reported its `n`-th (or a later) finished
+/// event waits before it takes the next one, until this is set back to `None`.  This is how
+/// the harness lets events queue up behind the writer: it asks the writer to park after the
+/// next event, sends that event, waits for the report, sends more, then releases the writer.
+pub fn park_writers_at(events_done: Option<u64>) {
+    *PARK_AT
         .lock()
-        .unwrap_or_else(std::sync::PoisonError::into_inner) = held;
-    CLOCK_RELEASED.notify_all();
+        .unwrap_or_else(std::sync::PoisonError::into_inner) = events_done;
+    PARK_CHANGED.notify_all();
 }
 
 /// Sets the simulated wall clock, in nanoseconds since the epoch.
@@ -91,12 +84,23 @@ pub fn writer_started() {
 /// Called by the writer thread after it finishes processing one event.
 pub fn writer_event_done() {
     let opt_id = WRITER_GUARD.with(|cell| cell.borrow().as_ref().map(|guard| guard.0));
+    let mut done = 0;
     if let Some(id) = opt_id {
         let mut guard = WRITERS
             .lock()
             .unwrap_or_else(std::sync::PoisonError::into_inner);
-        guard.entry(id).or_default().events_done += 1;
+        let info = guard.entry(id).or_default();
+        info.events_done += 1;
+        done = info.events_done;
         CHANGED.notify_all();
+    }
+    let mut park_at = PARK_AT
+        .lock()
+        .unwrap_or_else(std::sync::PoisonError::into_inner);
+    while park_at.is_some_and(|n| done >= n) {
+        park_at = PARK_CHANGED
+            .wait(park_at)
+            .unwrap_or_else(std::sync::PoisonError::into_inner);
     }
 }
 
